@@ -521,3 +521,43 @@ pub fn get_best_move_until_stop(
     // Every depth a u8 can hold has been searched
     found_move
 }
+
+/// Verification hooks (only compiled with `--cfg daniel729_chess_verif`): direct entry points
+/// to the three search functions so that they can be called with arbitrary windows.
+#[cfg(daniel729_chess_verif)]
+pub mod verif_entry {
+    use super::*;
+
+    pub fn quiescence(game: &mut Game, alpha: Score, beta: Score, real_depth: u8) -> Score {
+        quiescence_search(game, alpha, beta, real_depth)
+    }
+
+    pub fn depth_1(game: &mut Game, alpha: Score, beta: Score, real_depth: u8) -> Score {
+        get_best_move_score_depth_1(game, alpha, beta, real_depth)
+    }
+
+    #[allow(clippy::too_many_arguments)]
+    pub fn node(
+        game: &mut Game,
+        table: &mut TranspositionTable,
+        continue_running: &AtomicBool,
+        remaining_depth: u8,
+        real_depth: u8,
+        alpha: Score,
+        beta: Score,
+    ) -> Option<Score> {
+        let mut killer_moves = [None; 256];
+        let mut history = [0; 64 * 12];
+        get_best_move_score(
+            game,
+            table,
+            continue_running,
+            remaining_depth,
+            real_depth,
+            alpha,
+            beta,
+            &mut killer_moves,
+            &mut history,
+        )
+    }
+}
